@@ -1,14 +1,14 @@
 """C06 - ChaCha20-Poly1305 equals RFC 8439; decrypt inverts encrypt; one-shot or streamed."""
 import struct
 from ..codec import Rng, expand, spec_len
-from ..aeadmodel import check_aead, tag_of, stream
+from ..aeadmodel import check_aead, tag_of, tag_of_zero_ct, stream
 from .. import oracle as o
 
 ID = 'C06'
 RULE = ('one record per one-shot encrypt / decrypt or per incremental history (add_data*, to_encryption|to_decryption, encrypt|encrypt_mut|'
         'decrypt|decrypt_mut*, finalize); ciphertext, tag, plaintext and verdict must equal the RFC 8439 composition; AAD and data lengths '
         'from {0,1,15,16,17,31,32,33,63,64,65}^2 plus random; key lengths 16/32; rounds 20 (8,12 via the generic contexts); partitions: whole, '
-        'bytewise, random (mixing in-place and buffer-to-buffer, continuing on clones of the context taken at any point); ciphertexts solved so that the Poly1305 accumulator hits extreme limb / carry patterns; AAD of 2^32+5 bytes; one message of more than 65535 blocks; distinct = (op, rounds, keylen, aad length, data length, partition shape)')
+        'bytewise, random (mixing in-place and buffer-to-buffer, continuing on clones of the context taken at any point); ciphertexts solved so that the Poly1305 accumulator hits extreme limb / carry patterns; AAD of 2^32+5 bytes; one message of more than 65535 blocks, one of more than 2^32 bytes; distinct = (op, rounds, keylen, aad length, data length, partition shape)')
 ASSUMPTIONS = ['ChaCha20, Poly1305 models of C03/C05; composition pinned by RFC 8439 2.8.2']
 FLOORS = {'evaluations': 2000, 'distinct': 1500}
 THOROUGH_ROUNDS = 30   # thorough tier: generator passes with derived seeds (runner.gen_rounds)
@@ -107,6 +107,16 @@ def gen(tier, seed):
     if thorough:
         key, nonce = rng.bytes(16), rng.bytes(12)
         yield 'aead_inc 20 %s %s a.%s E em.%s e.%s fin #huge' % (key.hex(), nonce.hex(), rng.bytes(3).hex(), rng.data(65536 * 64 - 7), rng.data(150))
+    # more than 2^32 bytes of message through one context (RFC 8439 allows 2^32 - 1 blocks): zero ciphertext decrypted in 1 MiB pieces,
+    # tag by closed form, first and last keystream block compared
+    key, nonce = rng.bytes(32), rng.bytes(12)
+    aad0 = rng.bytes(5)
+    n = (1 << 32) + 64 * rng.rng(1, 9)
+    yield 'aead_inc 20 %s %s a.%s D dz.%d.%d fin.%s #huge' % (key.hex(), nonce.hex(), aad0.hex(), n, 1 << 20, tag_of_zero_ct(20, key, nonce, aad0, n).hex())
+    key, nonce = rng.bytes(16), rng.bytes(12)
+    n = 64 * rng.rng(3, 40)       # the same path at a small size (cross-checked below against the plain model)
+    yield 'aead_inc 20 %s %s a.%s D dz.%d.%d fin.%s' % (key.hex(), nonce.hex(), aad0.hex(), n, 100, tag_of_zero_ct(20, key, nonce, aad0, n).hex())
+    assert tag_of_zero_ct(20, key, nonce, aad0, n) == tag_of(20, key, nonce, aad0, bytes(n))
     # larger random sizes
     for _ in range(150 if thorough else 25):
         kl = rng.choice([16, 32]); key, nonce = rng.bytes(kl), rng.bytes(12)
@@ -127,9 +137,10 @@ def shape(line):
     if f[0] == 'aead_inc':
         al = sum(spec_len(s[2:]) for s in f[4:] if s.startswith('a.')) + sum(int(s.split('.')[1]) for s in f[4:] if s.startswith('az.'))
         steps = [s for s in f[4:] if s.split('.')[0] in ('e', 'em', 'd', 'dm', 'cl', 'clf', 'ex', 'dx')]
+        zc = sum(int(s.split('.')[1]) for s in f[4:] if s.startswith('dz.'))
         real = lambda s: s.split('.')[0] in ('e', 'em', 'd', 'dm')
         dl = sum(spec_len(s.split('.')[1]) for s in steps if real(s))
-        return (f[0], f[1], spec_len(f[2]), al, dl, tuple((s.split('.')[0], spec_len(s.split('.')[1]) if real(s) else 0) for s in steps))
+        return (f[0], f[1], spec_len(f[2]), al, dl + zc, tuple((s.split('.')[0], spec_len(s.split('.')[1]) if real(s) else 0) for s in steps))
     return (f[0], f[1], spec_len(f[2]), spec_len(f[4]), spec_len(f[5]))
 
 
